@@ -60,6 +60,9 @@ def search(ctx, N):
     for t in range(N):
         m = int(rng.integers(2, 10))
         n = int(rng.integers(0, m))
+        if t % 8 == 7:
+            m = int(rng.integers(10, 15))        # more nodes, all orders up to m - 1 (rows 9 .. 13 exist only here)
+            n = m - 1 - int(rng.integers(0, 2))
         kind = int(rng.choice([0, 1, 3, 4, 5]))
         if t % 4 == 0:
             kind = 5
